@@ -200,3 +200,40 @@ Example C03_source_in_the_domain_and_rendered :
   evaluate_string cx0 (bs "@each(v in xs)[{{ v }}@breakIf(v == 2)@continue]@else none@end"%string)
     [(bs "xs"%string, GSlice [GInt 1; GInt 2; GInt 3])] = RenderOk (bs "[1[2"%string).
 Proof. split; vm_compute; reflexivity. Qed.
+
+(* ---- @for: header clauses (each optional; the third an expression or an assignment), body, @else *)
+Example C03_lexed_for_loop_renders :
+  let ns := [NFor (Some (bs "i", XInt 0)) (Some (XBin BLt (XVar (bs "i")) (XInt 3))) (Some (PostInc (bs "i")))
+               [NPrint (XVar (bs "i")); NText (bs ",")] None]%string in
+  exists ss eof,
+    lex_all (bs "@for(i = 0; i < 3; i++){{ i }},@end"%string) = Some (flats ss ++ [eof]) /\
+    ttype eof = T_EOF /\ wf_ss ss /\ Dens ss ns /\ nodes_ok ns /\
+    in_domain (bs "@for(i = 0; i < 3; i++){{ i }},@end"%string) = true /\
+    (exists sc, run_nodes model_call_spec 30 [[]] ns = TOk (bs "0,1,2,"%string) SigNormal sc) /\
+    evaluate_string cx0 (bs "@for(i = 0; i < 3; i++){{ i }},@end"%string) [] = RenderOk (bs "0,1,2,"%string).
+Proof.
+  intro ns.
+  destruct (lex_all (bs "@for(i = 0; i < 3; i++){{ i }},@end"%string)) as [ts|] eqn:E; [|vm_compute in E; discriminate E].
+  vm_compute in E. injection E as <-.
+  match goal with |- exists ss eof, Some (?kw :: ?lp :: ?i1 :: ?eq :: ?zero :: ?s1 :: ?i2 :: ?lt :: ?three :: ?s2 :: ?i3 :: ?inc :: ?rp ::
+                                         ?lb :: ?i4 :: ?rb :: ?txt :: ?en :: ?eoft :: nil) = _ /\ _ =>
+    exists [TFor kw lp s1 s2 rp en (Some (i1, eq, CAtom zero)) (Some (CBin lt (CAtom i2) (CAtom three)))
+                 (Some (FPE (CPost inc (CAtom i3)))) [TCode lb rb (CAtom i4); TText txt] None], eoft
+  end.
+  split; [reflexivity|]. split; [reflexivity|].
+  split.
+  { cbn [wf_ss wf_s wf wf_init wf_cond wf_post wf_list_with llev rlev]. unfold tprec, INF. cbn [ttype].
+    repeat split; try reflexivity; try discriminate; try (vm_compute; lia). }
+  split.
+  { subst ns. apply DsCons; [|apply DsNil].
+    apply DFor.
+    - reflexivity.
+    - cbn. repeat split.
+    - cbn. repeat split.
+    - cbn. repeat split.
+    - apply DsCons; [apply DCode; cbn; repeat split|]. apply DsCons; [apply DText'; reflexivity|apply DsNil].
+    - apply DlNone. }
+  split; [subst ns; cbn; repeat split; lia|].
+  split; [vm_compute; reflexivity|].
+  split; [eexists; vm_compute; reflexivity|vm_compute; reflexivity].
+Qed.
